@@ -37,22 +37,33 @@ func NewReplicationStreamObserver(logger loggable) *ReplicationStreamObserver {
 		logger:         logger,
 	}
 }
+// maxObservedStreamIndex is the largest stream index the observer keeps a counter for. Shard ids
+// come from stream-open metadata; the least common multiple of two shard counts at Temporal's
+// maximum of 16384 can not exceed 16384*16384, anything beyond that is not a real shard.
+const maxObservedStreamIndex = 16384 * 16384
+
 func (s *ReplicationStreamObserver) ReportStreamValue(idx int32, value int32) {
 	if idx < 0 {
 		s.logger.Warn("ReplicationStreamObserver NotifyConnect called with negative streamIndex")
 		return
 	}
+	if idx > maxObservedStreamIndex {
+		s.logger.Warn("ReplicationStreamObserver NotifyConnect called with streamIndex beyond the supported shard range")
+		return
+	}
 	s.streamGrowLock.Lock()
+	// Never leave the lock held: a panic below would block every later stream.
+	defer s.streamGrowLock.Unlock()
 	// We want to grow the minimum number of times, so
 	if idx >= int32(len(s.streamActive)) {
 		// Each index will be uniformly random in the range [0, maxStreams). Growing by a percentage of index helps
 		// minimize the amount of reallocation required. Starting with increasing to 125% of idx to keep memory waste low
-		newSize := min(int((idx+1)*9), math.MaxInt32) / 8
+		// (computed in 64 bits: (idx+1)*9 does not fit an int32 for idx above 238609293)
+		newSize := int(min((int64(idx)+1)*9/8, math.MaxInt32))
 		// grow and maximize
 		s.streamActive = slices.Grow(s.streamActive, newSize)[:newSize]
 	}
 	s.streamActive[idx].Add(value)
-	s.streamGrowLock.Unlock()
 }
 func (s *ReplicationStreamObserver) PrintActiveStreams() string {
 	sb := strings.Builder{}
